@@ -466,8 +466,10 @@ int _GD_ReadLinterpFile(DIRFILE *restrict D, gd_entry_t *restrict E)
   E->e->u.linterp.lut = ptr;
   E->e->u.linterp.table_len = i;
 
-  /* sort the LUT */
-  if (dir == -2)
+  /* sort the LUT: _GD_GetIndex and _GD_LinterpData need rising abscissae, so
+   * only a table already listed that way (dir == 1) can be used as is -- one
+   * listed with falling abscissae (dir == 0) must be sorted, too */
+  if (dir != 1)
     qsort(E->e->u.linterp.lut, i, sizeof(struct gd_lut_), lutcmp);
 
   fclose(fp);
